@@ -236,7 +236,11 @@ public:
             // If beta = 0, then the next V is not full rank
             // We need to generate a new residual vector that is orthogonal
             // to the current V, which we call a restart
-            if (m_beta < m_near_0)
+            //
+            // The same applies if beta is at rounding level relative to ||A||: then f consists
+            // of rounding noise, which is in general not orthogonal to V, and f / beta must not
+            // enter the basis
+            if (m_beta < m_near_0 || m_beta < m_eps * m_scale)
             {
                 MapConstMat V(m_fac_V.data(), m_n, i);  // The first i columns
                 expand_basis(V, 2 * i, m_fac_f, m_beta, op_counter);
